@@ -361,6 +361,9 @@ func (p *pgBoundValue) GetData(setting config.ColumnEncryptionSetting) ([]byte, 
 			case common.EncryptedType_Int32, common.EncryptedType_Int64:
 				var value int64
 				switch len(p.data) {
+				case 0:
+					// NULL parameter: there is no number to convert and nothing to protect
+					return p.data, nil
 				// We don't directly suport smallint, but at least we handle them
 				// during insertion
 				case 2:
